@@ -228,9 +228,35 @@ class Spec:
                 th["scopes"].pop()
                 ents = g[1]["entries"]
             self.lspans[a[0]] = ents
+        elif op in ("closeUnder", "collectUnder"):
+            # the scope / collector guard beneath still-open local spans is released first: those spans are
+            # closed at this instant (C17), their guards become inert
+            i = len(th["guards"]) - 1
+            while i >= 0 and th["guards"][i][0] == "local":
+                i -= 1
+            if i < 0 or th["guards"][i][1] is None or len(th["scopes"]) != 1:
+                raise ValueError("closeUnder: no real scope under the open local spans, or not the only span line")
+            g = th["guards"].pop(i)
+            if op == "collectUnder" and g[0] != "coll":
+                raise ValueError("collectUnder: not a collector")
+            for j in range(i, len(th["guards"])):
+                lg = th["guards"][j]
+                if lg[1] is not None:
+                    lg[1]["closed"] = pos
+                th["guards"][j] = ("local", None, "stale")
+            g[1]["open"].clear()
+            if op == "closeUnder":
+                self.close_guard(t, g)
+                if g[0] == "scope" and g[1]["sampled"]:
+                    self.touch(t)
+            else:
+                th["scopes"].pop()
+                self.lspans[a[0]] = g[1]["entries"]
         elif op == "lWithProps":
             kvs = rprops(a[0].split(":", 1)[1])
             g = th["guards"][-1]
+            if g[2] == "stale":
+                raise ValueError("lWithProps on a local span whose scope has ended")
             self.closure_obs.append((pos, g[1] is not None))
             if g[1] is not None:
                 g[1]["props"] += kvs
@@ -494,6 +520,28 @@ class Gen:
         self.emit(t, "collect %s" % x)
         return x
 
+    def op_close_under(self, t):
+        self.emit(t, "closeUnder")
+
+    def op_collect_under(self, t):
+        x = "x%d" % (len(self.s.lspans) + 1)
+        self.emit(t, "collectUnder %s" % x)
+        return x
+
+    def under(self, t):
+        """the real scope / collector guard under the open local spans on top of thread t's guard stack, when
+        releasing it first is specified (it is the thread's only span line and no adapter call is in progress)"""
+        th = self.s.th(t)
+        g = th["guards"]
+        if not self.k.get("open_at_close") or self.calls.get(t) or len(th["scopes"]) != 1 or not g or g[-1][0] != "local":
+            return None
+        i = len(g) - 1
+        while i >= 0 and g[i][0] == "local":
+            i -= 1
+        if i < 0 or g[i][1] is None:
+            return None
+        return g[i]
+
     def op_l_with_props(self, t):
         self.emit(t, "lWithProps %s" % self.closure())
 
@@ -638,6 +686,8 @@ class Gen:
         self.op_stats()
 
     def maybe_cycle(self):
+        if self.k.get("sleeps") and self.r.chance(1, 5):
+            self.emit(0, "sleep %d" % (300 + self.r.below(1500)))
         d = self.k["cycle_density"]
         if d and self.r.below(12) < d * 2:
             self.op_cycle()
@@ -679,10 +729,15 @@ class Gen:
             choices += [("localEnter", 6), ("lAddEvent", 2), ("lAddProps", 2), ("ctxLocal", 3), ("childLocal", 3), ("collector", 1)]
             if top is not None:
                 choices.append(("close", 9))
-                if top[0] == "local":
+                if top[0] == "local" and top[2] != "stale":
                     choices.append(("lWithProps", 2))
                 if top[0] == "coll":
                     choices.append(("collect", 4))
+                u = self.under(t)
+                if u is not None:
+                    choices.append(("closeUnder", 5))
+                    if u[0] == "coll":
+                        choices.append(("collectUnder", 5))
             if s.lspans:
                 choices.append(("toRecords", 1))
             incall = self.in_call_top(t)
@@ -763,6 +818,12 @@ class Gen:
                 self.probe(t)
             elif c == "collect":
                 self.op_collect(t)
+                self.probe(t)
+            elif c == "closeUnder":
+                self.op_close_under(t)
+                self.probe(t)
+            elif c == "collectUnder":
+                self.op_collect_under(t)
                 self.probe(t)
             elif c == "lWithProps":
                 self.op_l_with_props(t)
@@ -876,10 +937,15 @@ class Gen:
                     choices.append(("pushChild", 3))
             if top is not None:
                 choices.append(("close", 9))
-                if top[0] == "local":
+                if top[0] == "local" and top[2] != "stale":
                     choices.append(("lWithProps", 3))
                 if top[0] == "coll":
                     choices.append(("collect", 4))
+                u = self.under(t)
+                if u is not None:
+                    choices.append(("closeUnder", 5))
+                    if u[0] == "coll":
+                        choices.append(("collectUnder", 5))
             if s.lspans:
                 choices.append(("toRecords", 1))
             if len(lt) > 1 and r.chance(1, 20):
@@ -919,6 +985,10 @@ class Gen:
                 self.op_close(t)
             elif c == "collect":
                 self.op_collect(t)
+            elif c == "closeUnder":
+                self.op_close_under(t)
+            elif c == "collectUnder":
+                self.op_collect_under(t)
             elif c == "lWithProps":
                 self.op_l_with_props(t)
             elif c == "lAddProps":
